@@ -510,6 +510,16 @@ macro "norm_last" : tactic => `(tactic|
     forall_const, and_true, true_and, implies_true, reduceCtorEq, Nat.add_zero,
     Uft.Gen.DemangleTables.dTypes, Uft.Gen.DemangleTables.tType, List.contains_cons, List.contains_nil, Bool.or_false] at hlast))
 
+/-- for the hypothesis of an `else` branch: byte comparisons stay opaque (each `c ≠ k` would make `omega`
+    split cases), only Bool/Int/Nat tests are normalised -/
+macro "norm_neg" : tactic => `(tactic|
+  (rename_i hlast;
+   try simp only [beq_iff_eq, bne_iff_ne, ne_eq, Bool.and_eq_true, Bool.or_eq_true, Bool.not_eq_true', Bool.not_eq_true,
+    Bool.not_true, Bool.not_false, decide_eq_true_eq, decide_eq_false_iff_not, Bool.decide_eq_true,
+    ge_iff_le, gt_iff_lt, not_and, not_or, Nat.not_lt, Nat.not_le, Int.not_lt, Int.not_le,
+    Bool.false_eq_true, Bool.true_eq_false, not_false_eq_true, not_true_eq_false, true_implies, false_implies,
+    forall_const, and_true, true_and, implies_true, reduceCtorEq, Nat.add_zero, Decidable.not_not] at hlast))
+
 /-- close an arithmetic leaf goal -/
 macro "fin" : tactic => `(tactic| first | omega | ((try norm_tests); omega))
 
@@ -541,7 +551,7 @@ macro_rules | `(tactic| wp1) => `(tactic| first
   | (apply s_neutral (appendSeparator _) (by assumption) (by assumption) (by assumption); intros)
   | (apply s_modifySt _ (by intro st; exact ⟨rfl, rfl, rfl⟩) (by assumption) (by assumption) (by assumption); intros)
   | (simp only [Bool.not_true, Bool.not_false, Bool.false_eq_true, ↓reduceIte])
-  | (apply tri_ite <;> intro _ <;> norm_last)
+  | (apply tri_ite; (case' hT => (intro _; norm_last)); (case' hF => (intro _; norm_neg)))
   | split
   | (dsimp only))
 
